@@ -317,7 +317,10 @@ def seq_entry_table(facts, which, cfgname="default"):
 
             entry = ("enum", "GroupEntry::TypeGroupname", {"ge": ("enum", "TypeGroupnameEntry", {"occur": OPAQUE})})
             src_env = {"ge.occur.as_ref().map(|o|o.occur)": occ_val(o), "occur.as_ref().map(|o|o.occur)": occ_val(o)}
-            env = {"entry": entry, "elems": OPAQUE, "cursor": 100, "ctx": OPAQUE}
+            # the array holds exactly the elements the scripted iterations consume: after them (and for a
+            # zero-width entry from the start) the cursor sits at the end of the array
+            avail = k if isinstance(k, int) else 0
+            env = {"entry": entry, "elems": absint.MutList([OPAQUE] * (100 + avail)), "cursor": 100, "ctx": OPAQUE}
             r = Run(facts, which, cfgname, src_env, env, scripts={"seq_match_entry_once": once})
             try:
                 v = r.run(fi.node)
@@ -332,11 +335,9 @@ def seq_entry_table(facts, which, cfgname="default"):
             mn, mx = oracle_minmax(o)
             if k == "Z":
                 # a zero-width iteration must end the loop at once, whatever the lower bound (termination)
-                if not verdict.startswith("unknown"):
+                if not verdict.startswith("unknown") and state.get("calls", 0) > 1:
                     verdict += " after %d call(s)" % state.get("calls", 0)
-                exp = "match+0 after 1 call(s)"
-                if mx == 0:
-                    exp = "match+0 after 0 call(s)"
+                exp = "match+0"
             else:
                 n = k if mx is None else min(k, mx)
                 exp = "match+%d" % n if n >= mn else "nomatch"
